@@ -1,9 +1,10 @@
 (** C02 — the bytes written are the specification's binary encoding.  [wire] is the encoder of the
     model; the theorems below pin every clause of the specification on it, independently of how it is
     written, and show that an independent decoder recovers the value.  Statements only. *)
-From Coq Require Import Lia.
-From FA Require Import model.Base model.Varint model.Value model.Schema model.Utf8 model.Codec
-                       proofs.VarintProofs proofs.CodecProofs.
+From Coq Require Import Lia Reals SpecFloat.
+From Flocq Require Import Core BinarySingleNaN.
+From FA Require Import model.Base model.Varint model.Float model.Value model.Schema model.Utf8 model.Codec
+                       proofs.VarintProofs proofs.CodecProofs proofs.FloatBits proofs.FloatProofs.
 
 (** int / long / enum index / union index / counts / lengths: zig-zag ... *)
 Theorem C02_zigzag : forall n, in_int64 n -> zigzag n = if 0 <=? n then 2 * n else - 2 * n - 1.
@@ -22,6 +23,60 @@ Theorem C02_little_endian : forall n x, 0 <= x < 256 ^ Z.of_nat n ->
   length (le_bytes n x) = n /\ le_val (le_bytes n x) = x /\ Forall is_byte (le_bytes n x).
 Proof. intros n x H. split; [apply le_bytes_length|split; [apply le_val_bytes; exact H|apply le_bytes_ok]]. Qed.
 Print Assumptions C02_little_endian.
+
+(** ... and the pattern IS the IEEE-754 one.  [rval s m e] is the real number (-1)^s * m * 2^e, [rne p emax] Flocq's
+    round-to-nearest-even onto the binary format with p significant bits (real-number specification of IEEE-754);
+    [fdecode mw ew] reads a bit pattern (sign, ew exponent bits, mw fraction bits) as a value, [fencode] is its inverse
+    on valid values.  A finite Python float written under 'float' is stored as the binary32 pattern of its
+    round-to-nearest-even rounding; OverflowError exactly when the rounded magnitude reaches 2^128.
+    (These four theorems rest on the standard library's real-number axioms through Flocq; see Print Assumptions.) *)
+Theorem C02_float_is_IEEE_binary32_rne : forall bits s m e, fdecode 52 11 bits = S754_finite s m e ->
+  let r := rne 24 128 (rval s m e) in
+  if Rlt_bool (Rabs r) (bpow radix2 128)
+  then exists y, d2s bits = Ok (fencode 23 8 y) /\ fdecode 23 8 (fencode 23 8 y) = y /\
+                 SF2R radix2 y = r /\ is_finite_SF y = true /\ sign_SF y = s /\ 0 <= fencode 23 8 y < 2 ^ 32
+  else d2s bits = Err.
+Proof. exact d2s_finite_spec. Qed.
+Print Assumptions C02_float_is_IEEE_binary32_rne.
+
+(** a Python int written under 'float' / 'double' is first converted like float(n): round-to-nearest-even onto binary64,
+    OverflowError exactly when the rounded magnitude reaches 2^1024 *)
+Theorem C02_int_to_double_is_rne : forall z,
+  let r := rne 53 1024 (IZR z) in
+  if Rlt_bool (Rabs r) (bpow radix2 1024)
+  then exists y, z2d z = Ok (fencode 52 11 y) /\ fdecode 52 11 (fencode 52 11 y) = y /\ SF2R radix2 y = r /\ is_finite_SF y = true
+  else z2d z = Err.
+Proof. exact z2d_spec. Qed.
+Print Assumptions C02_int_to_double_is_rne.
+
+(** every pattern the conversions produce fits its width (so that the little-endian theorem above applies to it) *)
+Theorem C02_float_patterns_in_range :
+  (forall b x, d2s b = Ok x -> 0 <= x < 2 ^ 32) /\ (forall z x, z2d z = Ok x -> 0 <= x < 2 ^ 64) /\ (forall b, 0 <= s2d b < 2 ^ 64).
+Proof. split; [exact d2s_range|split; [exact z2d_range|exact s2d_range]]. Qed.
+Print Assumptions C02_float_patterns_in_range.
+
+(** the bit-pattern reading is a bijection between valid non-NaN values and their patterns; every pattern is valid (no axioms) *)
+Theorem C02_pattern_bijection : forall mw ew, 0 < mw -> 1 < ew ->
+  (forall y, valid_binary (mw + 1) (2 ^ (ew - 1)) y = true -> y <> S754_nan ->
+             fdecode mw ew (fencode mw ew y) = y /\ 0 <= fencode mw ew y < 2 ^ (mw + ew + 1)) /\
+  (forall bits, valid_binary (mw + 1) (2 ^ (ew - 1)) (fdecode mw ew bits) = true).
+Proof. intros mw ew Hm He. split; [exact (fdecode_fencode mw ew Hm He)|exact (fdecode_valid mw ew Hm He)]. Qed.
+Print Assumptions C02_pattern_bijection.
+
+(** non-vacuity: 0.1 (0x3FB999999999999A) is finite, is written as 0x3DCCCCCD, and that pattern's value is rne24(0.1's value) *)
+Example C02_float_example :
+  exists s m e y, fdecode 52 11 0x3FB999999999999A = S754_finite s m e /\ d2s 0x3FB999999999999A = Ok 0x3DCCCCCD /\
+                  fencode 23 8 y = 0x3DCCCCCD /\ SF2R radix2 y = rne 24 128 (rval s m e).
+Proof.
+  exists false, 7205759403792794%positive, (-56), (S754_finite false 13421773 (-27)).
+  assert (Hd : fdecode 52 11 0x3FB999999999999A = S754_finite false 7205759403792794 (-56)) by (vm_compute; reflexivity).
+  assert (Hw : d2s 0x3FB999999999999A = Ok 0x3DCCCCCD) by (vm_compute; reflexivity).
+  split; [exact Hd|]. split; [exact Hw|]. split; [vm_compute; reflexivity|].
+  pose proof (d2s_finite_spec _ _ _ _ Hd) as Hs. cbv zeta in Hs. destruct (Rlt_bool _ _); [|rewrite Hw in Hs; discriminate].
+  destruct Hs as (y & Hy & Hdec & Hval & _). rewrite Hw in Hy. injection Hy as Hy.
+  assert (y = S754_finite false 13421773 (-27)) as <-; [|exact Hval].
+  rewrite <- Hdec, <- Hy. vm_compute. reflexivity.
+Qed.
 
 (** the structural clauses, one equation per kind of value *)
 Theorem C02_equations :
